@@ -289,3 +289,20 @@ CHECKS["C12"] = {
     ],
     "mandatory_labels": {"all": ["mutant/rejected-by-signature-or-type-only", "honest-join", "identity", "descriptor/GroupTypeAccount", "descriptor/GroupTypeContact", "descriptor/GroupTypeMultiMember"]},
 }
+
+CHECKS["C06"] = {
+    "level": "exploration",
+    "level_text": ("generated account keys x an attack catalogue enumerated completely per key set (impersonation with honest and degenerate ephemeral keys, cross-session replay of material "
+                   "harvested as a legitimate party, reflection, re-ordering, foreign key types) plus generated tampering (bit flip, truncation, drop, duplication) of every frame of an "
+                   "honest session; honest parties run the real handshake code over in-memory pipes with the manager's framing; oracle: who holds which private key in this session"),
+    "level_note": "the adversary seat is scripted with primitives written from the protocol description (nacl box, sha256), never with the code under test; cryptographic strength is trusted",
+    "technique": "property-based testing / attack-catalogue enumeration with a possession oracle",
+    "rule": ("case = one session (honest, attack, or tampered); non-trivial = attack in which the adversary gets past the box-opening step of the honest party, so that only the proof of possession "
+             "stands between it and success, or a tampered frame; distinct = attack label / (frame, mode, position)"),
+    "assumptions": ["pipe deadlines (10 s) only end sessions whose peer script stopped; a deadline is an error return, i.e. a rejection, never a violation",
+                    "foreign key types with a valid proof are recorded, not asserted (the statement only forbids reporting unproven keys)"],
+    "units": [
+        {"pkg": "internal/handshake", "run": "^TestVerif_C06_", Q: {"timeout": 900}, T: {"timeout": 3400, "shards": 12}},
+    ],
+    "mandatory_labels": {"all": ["honest", "wrong-target", "attack/only-proof-stands", "tamper/bit-flip", "tamper/truncate", "foreign-key"]},
+}
